@@ -157,10 +157,16 @@ theorem parser_constants_reach_rfc :
       (∃ lim, rowLimit row.1 = some lim ∧ lim ≤ row.2 + 1) ∨ row.1 ∈ tightConstants := by
   decide
 
-/-- The widest value each FlowSpec component class encodes (`VALUE_SIZES`) is the model's width. -/
+/-- Component classes that encode a wider value than the RFC allows (finding: `FlowFragment`
+    encodes two bytes, RFC 8955 section 4.2.2.12 says the bitmask MUST be a single octet). -/
+def wideComponents : List String := ["flowFragment"]
+
+/-- The widest value each FlowSpec component class encodes (`VALUE_SIZES`) is the model's width —
+    except the listed ones, which are wider. -/
 theorem flow_widths_match :
     ∀ row ∈ Exa.Generated.FieldLimits.flowWidth,
-      ∃ f, Field.ofName? row.1 = some f ∧ (layout f).width = row.2 := by
+      ∃ f, Field.ofName? row.1 = some f ∧
+        ((layout f).width = row.2 ∨ (row.1 ∈ wideComponents ∧ (layout f).width < row.2)) := by
   decide
 
 /-- `ASPath.SEGMENT_MAX_LENGTH`, `AS_TRANS` and `ASN.MAX_2BYTE` are the constants of the model. -/
